@@ -7,6 +7,10 @@ import json, os, re, glob, subprocess
 ROOT = os.path.join(os.path.dirname(os.path.abspath(__file__)), "..", "seeded")
 
 STRENGTHENED = {
+    "C10-3": "missed at first: every fall-back in the simulator was driven by the device's own status reads, so a member that is no longer polled never fell back, and a success assembled from reports of different rounds looked legitimate. C10 got a fall-back that happens two datagrams later whoever is addressed, a fall-back after one read, and the oracle 'the last status reads before the call returned are one report of the requested state per member'",
+    "C10-4": "missed by C10 at first (C07 caught it: its cycle harness checks the state list for every frame size); C10 now runs C07's cycle harness for groups of 2, 5 and 8 devices with frames carrying 2, 3 or all status reads and judges the state-list clauses",
+    "C15-4": "missed at first: the stale-mailbox case used equal mailbox sizes, and the simulated CoE server overwrote a full send mailbox with the next reply; now both mailbox size orders are covered and replies are queued until the master has read the mailbox to its last byte",
+    "C17-3": "missed at first: the simulator left the receive-time registers of closed ports at zero; now they can hold left-over times from before the entry time (1000 ns / 2^30 ns per port number), with and without the 32-bit wrap",
     "C03-1": "at first caught only by C06 (E2's receive operation is atomic, so the RxBusy window does not exist there); C03 got the E1 capacity harnesses c03-e1-* (expiry / drop at every scheduling point, capacity clause only)",
     "C06-2": "an early run seemed to catch it, but the two signatures printed were symptoms of the known released-while-Tx window that also appear on the unchanged tree once the search gets that deep (the load-dependent false alarm of DESIGN.md 6.4); the seed matrix exposed that it was in fact missed. C06 got c06-txdead-* (stalled TX task) and c06-oversize-response-* (response rejected after the slot was claimed), where the change makes the request hang",
     "C01-2": "C01's quantifier excludes deadlines, so C01 itself cannot see a defect that needs a timeout; missed by the first C06 quick tier too; C06 got the harnesses c06-2app-N1-A-expires-{none,count1} (request A never answered and expiring while request B competes for the same slot)",
@@ -27,6 +31,7 @@ PORTED = {
     "C19-1": "the agent's worktree predated fix cf974800; same two-line move re-applied",
 }
 NOTES = {
+    "C20-4": "not caught by C20, by construction: the change misdirects the second LRW of a split cycle whether or not other tasks run, so a task alone and the task among others misbehave identically and C20's differential oracle (same result as alone, same device state as one by one) sees no difference. It is a defect of C07/C08's clauses and is caught by C08 (outputs land elsewhere) at once",
     "C17-1": "after fix be506cc7 (junctions whose downstream ports are all taken are skipped) the agent's demonstration topology (two forks in series, demo.agent-original.diff) no longer distinguishes a front-to-back from a back-to-front search; demo.diff is a demonstration written afterwards on the tree C17's check reported (a fork nested inside the first branch of another fork)",
     "C16-2": "the demo's control test `c16_segmented_upload_well_behaved` encodes the segment layout the code expected before fix ad310639 and fails on HEAD with or without the change; the demonstration is `c16_segmented_upload_sends_more_than_announced`",
 }
